@@ -154,6 +154,9 @@ def controller_states(rng):
         dict(kind="degraded", rf=3, spare=1, replicas=[dict(mode="RW"), dict(mode="RW")]),
         dict(kind="degraded-err", rf=3, spare=1, replicas=[dict(mode="RW"), dict(mode="RW"), dict(mode="ERR")]),
         dict(kind="rebuilding", rf=3, spare=1, replicas=[dict(mode="RW"), dict(mode="WO")]),
+        # a replica whose address is an IPv6 literal (accepted by the controller; code that builds URLs from
+        # replica addresses has to cope with it)
+        dict(kind="rf1-ipv6-address", rf=1, spare=1, replicas=[dict(mode="RW", ip="[::1]")]),
     ]
     # rebuilding with the chains the two replicas report at the moment the request arrives
     for _ in range(2):
@@ -488,6 +491,32 @@ class Gen:
                         main = self.req(target, r, valid=base, idx=idx)
                         main["mid"] = dict(mid)
                         cases.append(self.case(target, st, [main, self.req(target, look)]))
+        return cases
+
+    def dups(self):
+        """controller: every action route with a valid body sent twice at the same moment (a retry overlapping the
+        original; connecting to a replica takes 40 ms during which the controller lock is released), followed by a
+        mode request for the spare replica the bodies name and a read of the object; replica: the same without the
+        mode request"""
+        cases = []
+        for target in ("controller", "replica"):
+            sts = self.states(target)
+            sts = [s for s in sts if s["kind"] in (("no-replica", "rf3-attached", "degraded") if target == "controller" else ("initial", "closed", "open"))]
+            seen = []
+            sts = [s for s in sts if s["kind"] not in seen and not seen.append(s["kind"])]
+            look = self.route(target, "/v1/replicas")
+            put = [r for r in self.routes[target] if r["path"] == "/v1/replicas/{id}" and "PUT" in (r["methods"] or [])]
+            for r in self.action_routes(target):
+                for st in sts:
+                    nrep = len(st.get("replicas") or [])
+                    valid = {"address": "{addr%d}" % nrep} if r["path"] in ("/v1/replicas", "/v1/quorumreplicas") else None
+                    main = self.req(target, r, idx=(nrep if target == "controller" and "/replicas/{id}" in r["path"] else None), valid=valid)
+                    main["dup"] = True
+                    reqs = [main]
+                    if target == "controller" and put:
+                        reqs.append(self.req(target, put[0], idx=nrep, valid={"mode": "RW"}))
+                    reqs.append(self.req(target, look))
+                    cases.append(self.case(target, st, reqs))
         return cases
 
     def under_load(self):
